@@ -265,6 +265,18 @@ func elecRun(w *World) {
 	for i := 0; i < nInit; i++ {
 		opts = append(opts, electricpb.WithInitialMode(&traits.ElectricMode{Id: ids[i], Title: "init", Normal: i == 0 && t.Flag(1, 2)}))
 	}
+	if t.Flag(1, 4) {
+		// (the resources may be given a clock of their own - for their change times - after the model's: start times are
+		// still the model clock's)
+		other := &modelClock{}
+		other.Jump(-87600 * time.Hour)
+		if t.Flag(1, 2) {
+			opts = append(opts, electricpb.WithActiveModeOption(resource.WithClock(other)))
+		} else {
+			opts = append(opts, resource.WithClock(other))
+		}
+		w.Fault("resource-clock")
+	}
 	e := &elecWorld{w: w, clk: clk}
 	e.m = electricpb.NewModel(opts...)
 	e.srv = electricpb.NewModelServer(e.m)
